@@ -22,6 +22,9 @@ def kernels(tier, seed):
     for n1, d1, n2, d2 in mixed:
         d = "fraction<%s,%s> x fraction<%s,%s> mixed" % (short[n1], short[d1], short[n2], short[d2])
         ks.append((d, 'c16::binary_mixed<%s,%s,%s,%s>("%s");' % (n1, d1, n2, d2, d)))
+    for n1, d1 in [("unsigned", "int"), ("int", "unsigned"), ("long", "int"), ("short", "long"), ("unsigned char", "short"), ("int", "signed char")]:
+        d = "fraction<%s,%s> unary range" % (short[n1], short[d1])
+        ks.append((d, 'c16::unary<%s,%s>("%s", %d);' % (n1, d1, d, 48 if tier == "quick" else 150)))
     ks.append(("fraction<i8> unary all", 'c16::unary<signed char>("fraction<i8> unary all", 0);'))
     ks.append(("fraction<u8> unary all", 'c16::unary<unsigned char>("fraction<u8> unary all", 0);'))
     for tc, tn in TYPES[1:4] + TYPES[5:]:
